@@ -41,6 +41,21 @@ CHECKS = {
    "All grammars x all strings up to the bound including an unknown token code: rejected means the documented channel; for LALR(1) grammars rejection happens exactly at the first token that cannot continue any sentence.",
    "Trusted: Earley viable-prefix oracle; abstract driver bound by conformance replays. Reduction loops of conflicting (e.g. cyclic) grammars are counted, not judged.",
    "3/C06"),
+ "C07": ("model_checking",
+   "bounded exhaustive replay on compiled generated parsers: corpus grammars x union-field assignments x action shapes x all strings up to the bound; returned value compared with reference attribute evaluation over the parser's own derivation-checked reductions",
+   "Harness-chosen actions make every stack slot and union field observable (token values encode character and position, rule values rule number and argument order). For every (grammar, tag assignment, action shape) and every accepted string the value returned by Parser() must equal bottom-up evaluation; Go (global packed, -o -u) and TypeScript.",
+   "Trusted: combinators shared between generated code and reference (gen/rt), the derivation checker, the TypeScript type eraser. Tag assignments: all-string, all-int, each single symbol switched to int or untagged; not all 3^n assignments.",
+   "3/C07"),
+ "C08": ("model_checking",
+   "differential bounded exhaustive replay: every corpus grammar generated in all five variants (go, -u, -o, -o -u, typescript), compiled/loaded, all strings up to the bound run on each; verdict class, reduction sequence and value compared pairwise and with the model run",
+   "All variants of one grammar must agree on every input up to the bound; each run is additionally compared with the abstract LR driver over yaccgo's tables (traces_validated).",
+   "Trusted: Go toolchain, Node 20, the type eraser (logs every deleted span). The embedded template strings equal the .templ files on this tree; a Makefile regeneration is not exercised.",
+   "3/C08"),
+ "C17": ("model_checking",
+   "bounded exhaustive replay with IsTrace=true on the four Go variants: stdout lines compared, in order, with the lines predicted from the model run and the specification's rule text; number of traced reductions compared with reductions executed by the actions",
+   "Every line of every traced run (all strings up to the bound, rejected ones up to the error) must be the action actually performed: shifts and gotos with the pushed state, reductions with exact rule text, lookahead and goto state.",
+   "Trusted: abstract LR driver (bound to generated code by C01/C08 replays), whitespace-normalised comparison.",
+   "3/C17"),
 }
 
 PENDING = {}
